@@ -19,7 +19,7 @@
        designation:       designator+ =          designator: [i] | [i ... j] | .m
        initializer:       assignment-expression | string-literal | { initializer-list }
 
-   Value(v)  a scalar expression: initialises the next *scalar* of the current
+   Value(vc) a scalar expression of value class vc: initialises the next *scalar* of the current
              object, entering aggregates on the way (brace elision, p20);
    Str(l,pre) a string literal for the next array of character type (p14-15);
    Open      `{`: the next subobject becomes the current object (p16-17, p20);
@@ -67,12 +67,13 @@ CONSTANTS Types,      \* the type names explored (subset of DOMAIN TT)
           MaxUnk,     \* designated indices into an array of unknown bound are < MaxUnk
           MaxTC,      \* trailing commas per behaviour
           Ranges,     \* TRUE: GNU range designators are in the domain
+          ValClasses, \* the value classes an initializer expression is drawn from (subset of AllValClasses)
           Emit,
           Broken
 
 ----------------------------------------------------------------------------
 (* The structural type language.  A type is a name of TT.
-     sc   scalar; c = kind.  "ptr": Value(v) is the address constant &G.m[v] + 1
+     sc   scalar; c = kind.  "ptr": the k-th Value is the address constant &G.m[k] + 1 (class "k")
      arr  n elements of type e; n = 0: unknown bound (top level or flexible member)
      st   struct; un union.  member: n = name ("" = none), t = type,
           w = bit-field width (0 = not a bit-field).
@@ -80,16 +81,23 @@ CONSTANTS Types,      \* the type names explored (subset of DOMAIN TT)
           anonymous struct/union *)
 Sc(c)      == [k |-> "sc", c |-> c]
 Arr(n, e)  == [k |-> "arr", n |-> n, e |-> e]
-St(ms)     == [k |-> "st", ms |-> ms]
-Un(ms)     == [k |-> "un", ms |-> ms]
-M(n, t)    == [n |-> n, t |-> t, w |-> 0]
-B(n, t, w) == [n |-> n, t |-> t, w |-> w]
+(* Layout attributes.  6.7.9 does not mention them: the value of every member is the same whatever the
+   offsets are.  They are part of the type alphabet because both back ends work on offsets: a struct may be
+   `packed` (at = "packed": members, in particular pointers = relocations, at offsets that are not multiples
+   of their alignment, elements of arrays of such structs at odd strides), a member may be over-aligned
+   (al = n: _Alignas(n), padding in the middle of the image). *)
+St(ms)     == [k |-> "st", ms |-> ms, at |-> ""]
+StP(ms)    == [k |-> "st", ms |-> ms, at |-> "packed"]
+Un(ms)     == [k |-> "un", ms |-> ms, at |-> ""]
+M(n, t)    == [n |-> n, t |-> t, w |-> 0, al |-> 0]
+MA(n, t, a) == [n |-> n, t |-> t, w |-> 0, al |-> a]
+B(n, t, w) == [n |-> n, t |-> t, w |-> w, al |-> 0]
 
 TT == [
   \* scalars
   int |-> Sc("int"), char |-> Sc("char"), short |-> Sc("short"), long |-> Sc("long"), uint |-> Sc("uint"),
   bool |-> Sc("bool"), float |-> Sc("float"), double |-> Sc("double"), ptr |-> Sc("ptr"),
-  uchar |-> Sc("uchar"), c16 |-> Sc("c16"), c32 |-> Sc("c32"), wchar |-> Sc("wchar"),
+  uchar |-> Sc("uchar"), c16 |-> Sc("c16"), c32 |-> Sc("c32"), wchar |-> Sc("wchar"), ldouble |-> Sc("ldouble"),
   \* arrays
   i2 |-> Arr(2, "int"), i3 |-> Arr(3, "int"), i0 |-> Arr(0, "int"), i22 |-> Arr(2, "i2"), i02 |-> Arr(0, "i2"),
   l3 |-> Arr(3, "long"), p2 |-> Arr(2, "ptr"), d2 |-> Arr(2, "double"),
@@ -129,9 +137,44 @@ TT == [
   sfs  |-> St(<<M("n", "char"), M("f", "as0")>>),
   sfc  |-> St(<<M("n", "int"), M("f", "c0")>>),
   sc4  |-> St(<<M("a", "c4"), M("b", "int")>>),
+  \* an array of character arrays inside a struct: a string literal reaches its element by brace elision (p20)
+  c3x2 |-> Arr(2, "c3"), sc23 |-> St(<<M("a", "c3x2"), M("b", "int")>>),
   sw   |-> St(<<M("a", "char"), M("w", "w2"), M("h", "h3")>>),
-  sp   |-> St(<<M("p", "ptr"), M("a", "int"), M("q", "ptr")>>)
+  sp   |-> St(<<M("p", "ptr"), M("a", "int"), M("q", "ptr")>>),
+  \* layouts off the natural alignment: packed (pointers, floating and integer members at odd offsets; an
+  \* array with the odd stride 19; a packed struct inside an ordinary one) and over-aligned members
+  spk  |-> StP(<<M("t", "char"), M("p", "ptr"), M("h", "short"), M("q", "ptr")>>),
+  spk2 |-> StP(<<M("a", "char"), M("d", "double"), M("l", "long"), M("f", "float")>>),
+  apk  |-> Arr(2, "spk"),
+  snpk |-> St(<<M("c", "char"), M("s", "spk"), M("r", "ptr")>>),
+  sal  |-> St(<<M("a", "char"), MA("p", "ptr", 16), M("b", "char"), MA("c", "char", 8)>>),
+  \* floating members of every format, for the value classes
+  sfl  |-> St(<<M("a", "float"), M("b", "double"), M("c", "ldouble")>>),
+  ufd  |-> Un(<<M("a", "float"), M("b", "double")>>)
 ]
+
+(* The value alphabet of an initializer expression.  The automaton is data independent: an initializer is
+   a token, the k-th one (k = 1, 2, ...) is distinguishable from all others.  Which VALUE the k-th expression
+   has is a second dimension, the value class:
+     "k"        the positive value k            (k, k.5f, k.25, k.25L, &G.m[k] + 1)
+     "zero"     an explicit zero                (0, 0.0f, 0.0, 0.0L, the null pointer constant 0): by p10/p21 the
+                same object value as no initializer at all, but an initializer: it overrides (p19)
+     "negzero"  a negated zero literal          (-0 = 0 for integers, a null pointer constant cast to pointer-to-void
+                for pointers, NEGATIVE ZERO for floating types: a value distinct from +0.0 = all bits zero,
+                6.7.9p10 speaks of "positive zero")
+     "neg"      the negative value -k           (-k, -k.5f, -k.25, &G.m[k] - 1 = an address constant with a
+                negative offset), converted to the member's type as if by assignment (p11)
+   val holds the code of (class, k); IntValue is the mathematical value for the integer kinds, NegZero says
+   that a floating member holds negative zero.  The harness spells the expression (plain, parenthesised,
+   cast from another type, negation of a parenthesised literal) and compares REPRESENTATIONS of floating
+   members, so that -0.0 and +0.0 differ. *)
+AllValClasses == <<"k", "zero", "negzero", "neg">>
+ClassIdx(vc)  == CHOOSE i \in 1..Len(AllValClasses) : AllValClasses[i] = vc
+VCode(vc, k)  == (ClassIdx(vc) - 1) * 10000 + k     \* (string literals write their code units, all < 10000: class "k")
+ClassOf(code) == AllValClasses[(code \div 10000) + 1]
+Ordinal(code) == code % 10000
+IntValue(code) == CASE ClassOf(code) = "k" -> Ordinal(code) [] ClassOf(code) = "neg" -> 0 - Ordinal(code) [] OTHER -> 0
+NegZero(code)  == ClassOf(code) = "negzero"
 
 K(t)      == TT[t].k
 IsAgg(t)  == K(t) # "sc"
@@ -261,14 +304,15 @@ Init == /\ ty \in Types
    designation put it; otherwise finished elision frames have been left already *)
 Cur == stack
 
-Value ==
-  LET v  == nit + 1                        \* the k-th initializer carries the value k
+Value(vc) ==
+  LET v  == VCode(vc, nit + 1)             \* the k-th initializer carries the value (class vc, k)
       s0 == Cur
       s1 == IF rng > 0 THEN s0 ELSE Descend(s0)
       f  == Top(s1)
       ws == [d \in 1..(rng + 1) |-> W(IF Plain(f) THEN f.p ELSE Append(f.p, f.c + d - 1), v)]
       s2 == Norm(Mark(AdvTop(s1, rng)))
-      it == Append(items, [a |-> "V", v |-> v, c |-> TT[KidTy(f)].c, p |-> ws[1].p])
+      it == Append(items, [a |-> "V", v |-> v, c |-> TT[KidTy(f)].c, p |-> ws[1].p,
+                           x |-> IntValue(v), nz |-> NegZero(v), vc |-> vc])
   IN /\ ~tc /\ Budget >= 1
      /\ ~Exhausted(Top(s0))                              \* no excess initializers (p2)
      /\ (rng > 0 \/ IsRoot(Top(s0))) => ~IsAgg(KidTy(Top(s0)))
@@ -381,7 +425,7 @@ DesigRange(i, j) ==
 
 AllFields == UNION {FieldNames0(t) : t \in {x \in DOMAIN TT : K(x) \in {"st", "un"}}}
 MaxIdx == 3
-Next == \/ Value \/ Open \/ Close \/ TrailingComma
+Next == \/ (\E vc \in ValClasses : Value(vc)) \/ Open \/ Close \/ TrailingComma
         \/ \E l \in 0..4, pre \in {"", "u8", "u", "U", "L"} : Str(l, pre)
         \/ \E m \in AllFields : DesigField(m)
         \/ \E i \in 0..MaxIdx : DesigIndex(i)
